@@ -35,7 +35,7 @@ rc, o = sh("git -C /repo worktree add -q %s HEAD" % wt)
 res = {"seed_id": seed_id, "breaks": props[0], "patch": patch, "pkgdir": pkgdir}
 try:
     shutil.copy(demo, os.path.join(wt, pkgdir, "zz_demo_test.go"))
-    rc, o = sh("go test -count=1 -run '%s' ./%s/" % (run_re, pkgdir), cwd=wt)
+    rc, o = sh("go test %s -count=1 -run '%s' ./%s/" % ("-race" if seed_id.startswith("C19") else "", run_re, pkgdir), cwd=wt)
     res["demo_on_clean"] = "pass" if rc == 0 else "FAIL"
     res["demo_on_clean_tail"] = o[-400:]
     os.remove(os.path.join(wt, pkgdir, "zz_demo_test.go"))
@@ -45,7 +45,7 @@ try:
     res["suite_on_mutant"] = "pass" if rc == 0 else "FAIL"
     res["suite_tail"] = o[-300:]
     shutil.copy(demo, os.path.join(wt, pkgdir, "zz_demo_test.go"))
-    rc, o = sh("go test -count=1 -run '%s' ./%s/" % (run_re, pkgdir), cwd=wt)
+    rc, o = sh("go test %s -count=1 -run '%s' ./%s/" % ("-race" if seed_id.startswith("C19") else "", run_re, pkgdir), cwd=wt)
     res["demo_on_mutant"] = "fail" if rc != 0 else "PASSES(not a mutant)"
     res["demo_on_mutant_tail"] = o[-500:]
 finally:
